@@ -152,3 +152,92 @@ def build(_p, name):
 
 CASES = ['Acc', 'Comb', 'CombOps', 'Fsm', 'TwoInstances', 'UARTSerializer', 'UARTDeserializer', 'ClockSyncFSM', 'AutoReset',
          'AttrPortMismatch', 'AttrPortMismatchSeq', 'TernaryComb', 'TernarySeq']
+
+
+# ------------------------------------------------------------------------------------------------ generated behavioural blocks
+# Transpiled blocks whose PORT names / state attributes / local variables are adversarial (Verilog keywords, names carrying the
+# generator's own prefixes, the implicit clock name).  The header of such a module is written by rtl_generation (getPortName ->
+# reserved_ prefix) and its body by the transpiler: both must agree on every name.  The classes are written to a real module file
+# (inspect.getsource must work) in a scratch directory that is removed at exit.
+import keyword as _pykw, os as _os, sys as _sys, tempfile as _tempfile, importlib as _importlib, atexit as _atexit, shutil as _shutil
+
+_GEN = {}
+
+TEMPLATE_COMB = """
+class {cls}(Logic):
+    def __init__(self, parent, name, a, b, r):
+        super().__init__(parent, name)
+        self.{aa} = self.addIn({pa!r}, a); self.{ab} = self.addIn({pb!r}, b); self.{ar} = self.addOut({pr!r}, r)
+
+    def propagate(self):
+        {lv} = self.{aa}.get() + 1
+        if self.{ab}.get() == 1:
+            self.{ar}.put({lv})
+        else:
+            self.{ar}.put(self.{aa}.get() & 3)
+"""
+TEMPLATE_SEQ = """
+class {cls}(Logic):
+    def __init__(self, parent, name, a, b, r):
+        super().__init__(parent, name)
+        self.{aa} = self.addIn({pa!r}, a); self.{ab} = self.addIn({pb!r}, b); self.{ar} = self.addOut({pr!r}, r)
+        self.{sv} = 0
+
+    def clock(self):
+        if self.{ab}.get():
+            self.{sv} = self.{sv} + self.{aa}.get()
+        self.{ar}.prepare(self.{sv})
+"""
+
+
+def _pyname(n, fallback):
+    return n if (n.isidentifier() and not _pykw.iskeyword(n) and not hasattr(Logic, n)) else fallback
+
+
+def generated_specs(words, var_words):
+    """[(case name, kind, template arguments)]: every word as an input-port and as an output-port name of a combinational and of a
+    sequential transpiled block (attribute = the port name when Python allows it, else a neutral name); var_words as names of a
+    local variable / a state attribute"""
+    specs = []
+    for i, w in enumerate(words):
+        w2 = words[(i + 1) % len(words)]
+        if w2 == w: w2 = 'r'
+        for kind in ('comb', 'seq'):
+            for same_attr in (False, True):
+                aa, ar = (_pyname(w, 'pa'), _pyname(w2, 'pr')) if same_attr else ('pa', 'pr')
+                if same_attr and (aa, ar) == ('pa', 'pr'): continue
+                specs.append(('ports[%s,%s,%s,attr=%s]' % (kind, w, w2, 'port' if same_attr else 'neutral'), kind,
+                              dict(aa=aa, ab='pb', ar=ar, pa=w, pb='b', pr=w2, lv='t', sv='acc')))
+        specs.append(('ports[seq,b,%s as enable]' % w, 'seq', dict(aa='pa', ab='pb', ar='pr', pa='a', pb=w, pr='r', lv='t', sv='acc')))
+    for w in var_words:
+        v = _pyname(w, None)
+        if v is None or v in ('pa', 'pb', 'pr'): continue
+        specs.append(('local_variable[%s]' % w, 'comb', dict(aa='pa', ab='pb', ar='pr', pa='a', pb='b', pr='r', lv=v, sv='acc')))
+        specs.append(('state_attribute[%s]' % w, 'seq', dict(aa='pa', ab='pb', ar='pr', pa='a', pb='b', pr='r', lv='t', sv=v)))
+    return specs
+
+
+def generated_module(specs):
+    """write the classes of the specs to a module file and import it; returns {case name: class}"""
+    key = tuple(n for n, _, _ in specs)
+    if key in _GEN: return _GEN[key]
+    d = _tempfile.mkdtemp(prefix='c03_gen_')
+    _atexit.register(_shutil.rmtree, d, True)
+    modname = 'c03_genbeh_%d_%d' % (_os.getpid(), len(_GEN))
+    src = ['from py4hw.base import Logic\n']
+    for k, (n, kind, args) in enumerate(specs):
+        src.append((TEMPLATE_COMB if kind == 'comb' else TEMPLATE_SEQ).format(cls='Gen%s%d' % (kind.capitalize(), k), **args))
+    open(_os.path.join(d, modname + '.py'), 'w').write('\n'.join(src))
+    _sys.path.insert(0, d)
+    try:
+        mod = _importlib.import_module(modname)
+    finally:
+        _sys.path.remove(d)
+    out = {n: getattr(mod, 'Gen%s%d' % (kind.capitalize(), k)) for k, (n, kind, args) in enumerate(specs)}
+    _GEN[key] = out
+    return out
+
+
+def build_generated(specs, name):
+    cls = generated_module(specs)[name]
+    return _wrap([('a', 8), ('b', 1)], [('r', 8)], lambda t, I, O: cls(t, 'dut', I[0], I[1], O[0]))
